@@ -54,6 +54,14 @@ def run_roundtrip(np, case, ctx):
 		kw['compression'] = p['compression']
 		if p['compression_opts'] is not None:
 			kw['compression_opts'] = p['compression_opts']
+	if case.get('rewrite'):
+		# the path first holds ANOTHER signature file which is loaded and closed; then it is overwritten: nothing of the old file may survive
+		from gambit.sigs.base import SignatureArray, AnnotatedSignatures, SignaturesMeta
+		from gambit.kmers import KmerSpec
+		old = SignatureArray([np.array([1, 2, 3], dtype='u2'), np.array([7], dtype='u2'), np.array([9, 11], dtype='u2'), np.array([], dtype='u2')], KmerSpec(6, 'CC'))
+		dump_signatures(path, AnnotatedSignatures(old, ['old0', 'old1', 'old2', 'old3'], SignaturesMeta(id='OLD', name='old file', extra={'old': True})))
+		with load_signatures(path) as o:
+			_ = [o[i] for i in range(len(o))], list(o.ids), o.meta
 	try:
 		dump_signatures(path, obj, **kw)
 	except Exception as e:
@@ -102,6 +110,8 @@ def run_roundtrip(np, case, ctx):
 	lens = {len(a) for a in arrays}
 	classes = ['roundtrip', f'width={spec.index_dtype}', 'dtype=index_dtype' if not p.get('dtype') else 'dtype=wider_or_signed', f'container={p["container"]}', f'ids={p["idkind"]}',
 	           f'compression={p["compression"]}', 'meta' if p['meta'] is not None else 'no_meta']
+	if case.get('rewrite'):
+		classes.append('path_rewritten')
 	if sum(len(a) for a in arrays) > 65536:
 		classes.append('values>64Ki')
 	if all(len(a) == 0 for a in arrays):
@@ -294,7 +304,7 @@ def gen_case(draw, tier):
 		return {'kind': 'cli_info', 'payload': draw(P.payload(max_sigs=6))}
 	if which == 'roundtrip':
 		return {'kind': 'roundtrip', 'payload': draw(P.payload(allow_big=(tier == 'thorough'), allow_medium=True, medium_rate=(40 if tier == 'thorough' else 100))), 'idx_seed': draw(st.integers(0, 2 ** 20)),
-		        'path_as': draw(st.sampled_from(['str', 'Path'])), 'fname': draw(st.sampled_from(['.gs', '.h5', ' with space.gs', '-ünï.gs', '.GS', '']))}
+		        'path_as': draw(st.sampled_from(['str', 'Path'])), 'rewrite': draw(st.sampled_from([False, False, True])), 'fname': draw(st.sampled_from(['.gs', '.h5', ' with space.gs', '-ünï.gs', '.GS', '']))}
 	ext = draw(st.sampled_from(['.gs', '.h5', '.txt', '.fasta', '']))
 	if which == 'foreign_bytes':
 		mode = draw(st.sampled_from(['raw', 'raw', 'valid_prefix', 'magic_plus', 'valid_truncated', 'valid_corrupt', 'gzip']))
